@@ -175,13 +175,33 @@ func (en *Engine) effectsStep(f *ssa.Function) bool {
 	if en.effSites != nil {
 		en.effSites[f] = nil
 	}
+	changedSummary := false
 	addc := func(comp, sort, ref string) {
 		n.comps[comp] = sort
 		if len(comp) > 3 && comp[:2] == "G_" {
 			n.globals[comp] = true
 		}
 	}
-	gder := globalDerived(f)
+	gder := en.globalDerived(f)
+	// a value derived from a package-level variable that is returned hands the shared object to
+	// the caller (summary used by globalDerived of the callers)
+	for _, b := range f.Blocks {
+		for _, ins := range b.Instrs {
+			if r, ok := ins.(*ssa.Return); ok {
+				for _, v := range r.Results {
+					if g, ok := gder[baseOf(v)]; ok {
+						if en.retGlobal == nil {
+							en.retGlobal = map[*ssa.Function]string{}
+						}
+						if en.retGlobal[f] == "" {
+							en.retGlobal[f] = g
+							changedSummary = true
+						}
+					}
+				}
+			}
+		}
+	}
 	viaGlobal := func(v ssa.Value, ins ssa.Instruction) {
 		if g, ok := gder[baseOf(v)]; ok {
 			comp := q("G " + g)
@@ -251,7 +271,7 @@ func (en *Engine) effectsStep(f *ssa.Function) bool {
 					}
 					for _, a := range c.Args {
 						switch a.Type().Underlying().(type) {
-						case *types.Pointer, *types.Slice, *types.Map, *types.Interface:
+						case *types.Pointer, *types.Slice, *types.Map, *types.Interface, *types.Struct:
 							viaGlobal(a, i)
 						}
 					}
@@ -263,6 +283,29 @@ func (en *Engine) effectsStep(f *ssa.Function) bool {
 						}
 					}
 					continue
+				}
+				// a function of a dependency that has no contract may write whatever memory it is
+				// handed (sort.Sort sorts in place): its reference arguments that are not this
+				// activation's own allocations count as written, by the type of what they refer to
+				if cf, ok := c.Value.(*ssa.Function); ok && (cf.Blocks == nil || !en.inRepo(cf)) && en.cs.Funcs[funcKey(cf)] == nil {
+					for _, a := range c.Args {
+						for _, r := range carriedRefs(a, en, map[ssa.Value]bool{}) {
+							if fresh[baseOf(r)] {
+								continue
+							}
+							viaGlobal(r, i)
+							en.addWriteThrough(fr, r, func(comp, sort, ref string) {
+								addc(comp, sort, ref)
+								if en.effSites != nil {
+									en.effSites[f] = append(en.effSites[f], i)
+								}
+								if en.viaExternal == nil {
+									en.viaExternal = map[ssa.Instruction]string{}
+								}
+								en.viaExternal[i] += " " + comp + "@" + funcKey(cf)
+							})
+						}
+					}
 				}
 				switch callee := c.Value.(type) {
 				case *ssa.Builtin:
@@ -289,7 +332,82 @@ func (en *Engine) effectsStep(f *ssa.Function) bool {
 			}
 		}
 	}
-	return e.add(n)
+	return e.add(n) || changedSummary
+}
+
+// carriedRefs: the reference values (pointers, slices, maps) a value may carry to a callee:
+// itself, what an interface or a converted value wraps, and what the result of a contract-less
+// function of a dependency was built from (sort.Reverse(x) carries x).
+func carriedRefs(v ssa.Value, en *Engine, seen map[ssa.Value]bool) []ssa.Value {
+	if seen[v] {
+		return nil
+	}
+	seen[v] = true
+	switch x := v.(type) {
+	case *ssa.MakeInterface:
+		return carriedRefs(x.X, en, seen)
+	case *ssa.ChangeType:
+		return carriedRefs(x.X, en, seen)
+	case *ssa.ChangeInterface:
+		return carriedRefs(x.X, en, seen)
+	case *ssa.Convert:
+		return carriedRefs(x.X, en, seen)
+	case *ssa.Phi:
+		var out []ssa.Value
+		for _, e := range x.Edges {
+			out = append(out, carriedRefs(e, en, seen)...)
+		}
+		return out
+	case *ssa.Call:
+		if cf, ok := x.Call.Value.(*ssa.Function); ok && (cf.Blocks == nil || !en.inRepo(cf)) && en.cs.Funcs[funcKey(cf)] == nil {
+			var out []ssa.Value
+			for _, a := range x.Call.Args {
+				out = append(out, carriedRefs(a, en, seen)...)
+			}
+			return out
+		}
+	}
+	switch v.Type().Underlying().(type) {
+	case *types.Pointer, *types.Slice, *types.Map:
+		if c, ok := v.(*ssa.Const); ok && c.Value == nil {
+			return nil
+		}
+		return []ssa.Value{v}
+	}
+	return nil
+}
+
+// addWriteThrough: the components a callee may write when it is handed the reference value r.
+func (en *Engine) addWriteThrough(fr *Frame, r ssa.Value, addc func(comp, sort, ref string)) {
+	switch t := r.Type().Underlying().(type) {
+	case *types.Slice:
+		et := t.Elem()
+		if isStruct(et) {
+			si := en.u.structInfo(et)
+			for k := 0; !si.Opaque && k < si.St.NumFields(); k++ {
+				addc(en.u.fieldComp(et, si.St.Field(k).Name()), en.u.sortOf(si.St.Field(k).Type()), "")
+			}
+		} else {
+			addc(en.u.cellComp(et), en.u.sortOf(et), "")
+		}
+	case *types.Map:
+		d, v := fr.mapComps(t)
+		fr.mapCur(t, &Heap{ver: map[string]string{}, now: "now0"})
+		en.mapSortMemo[d] = fr.vc.mapSorts[d]
+		en.mapSortMemo[v] = fr.vc.mapSorts[v]
+		addc(d, "MapDom", "")
+		addc(v, "MapVal", "")
+	case *types.Pointer:
+		et := t.Elem()
+		if isStruct(et) {
+			si := en.u.structInfo(et)
+			for k := 0; !si.Opaque && k < si.St.NumFields(); k++ {
+				addc(en.u.fieldComp(et, si.St.Field(k).Name()), en.u.sortOf(si.St.Field(k).Type()), "")
+			}
+		} else if _, isArr := et.Underlying().(*types.Array); !isArr {
+			addc(en.u.cellComp(et), en.u.sortOf(et), "")
+		}
+	}
 }
 
 // baseOf: the object an address belongs to (looking through field and index steps).
@@ -392,6 +510,15 @@ func (en *Engine) checkEffects(fn *ssa.Function, ct *FuncContract, prop string) 
 				if en.viaGlobal[ins] == comp {
 					p := en.fset.Position(ins.Pos())
 					ws = append(ws, fmt.Sprintf("%s (%s:%d, through the package-level variable)", funcKey(f), strings.TrimPrefix(p.Filename, "/repo/"), p.Line))
+					continue
+				}
+				if ext := en.viaExternal[ins]; ext != "" {
+					for _, w := range strings.Fields(ext) {
+						if j := strings.LastIndex(w, "@"); j > 0 && w[:j] == comp {
+							p := en.fset.Position(ins.Pos())
+							ws = append(ws, fmt.Sprintf("%s (%s:%d, handed to %s, a function of a dependency without contract)", funcKey(f), strings.TrimPrefix(p.Filename, "/repo/"), p.Line, w[j+1:]))
+						}
+					}
 					continue
 				}
 				st, ok := ins.(*ssa.Store)
@@ -505,8 +632,9 @@ func (en *Engine) checkEffects(fn *ssa.Function, ct *FuncContract, prop string) 
 
 // globalDerived: SSA values read (directly or through fields, elements, slices, phis) from a
 // package-level variable; a write through such a value mutates memory shared by all calls.
-func globalDerived(f *ssa.Function) map[ssa.Value]string {
+func (en *Engine) globalDerived(f *ssa.Function) map[ssa.Value]string {
 	der := map[ssa.Value]string{}
+	holds := map[*ssa.Alloc]string{} // local variables that hold a reference to a shared object
 	for changed := true; changed; {
 		changed = false
 		set := func(v ssa.Value, g string) {
@@ -527,8 +655,34 @@ func globalDerived(f *ssa.Function) map[ssa.Value]string {
 						}
 					} else if g, ok := der[baseOf(i.X)]; ok {
 						switch i.Type().Underlying().(type) {
-						case *types.Pointer, *types.Slice, *types.Map:
+						case *types.Pointer, *types.Slice, *types.Map, *types.Struct:
 							set(i, g)
+						}
+					} else if a, isLocal := baseOf(i.X).(*ssa.Alloc); isLocal && holds[a] != "" {
+						switch i.Type().Underlying().(type) {
+						case *types.Pointer, *types.Slice, *types.Map, *types.Struct:
+							set(i, holds[a])
+						}
+					}
+				case *ssa.Store:
+					// a shared reference stored into a local struct travels with the struct
+					if g, ok := der[i.Val]; ok {
+						if a, isLocal := baseOf(i.Addr).(*ssa.Alloc); isLocal && holds[a] == "" {
+							holds[a] = g
+							changed = true
+						}
+					}
+				case *ssa.Field:
+					switch i.Type().Underlying().(type) {
+					case *types.Pointer, *types.Slice, *types.Map, *types.Struct:
+						set(i, der[i.X])
+					}
+				case *ssa.Call:
+					// the callee returns an object it read from a package-level variable
+					if cf, ok := i.Call.Value.(*ssa.Function); ok && en.retGlobal[cf] != "" {
+						switch i.Type().Underlying().(type) {
+						case *types.Pointer, *types.Slice, *types.Map, *types.Struct:
+							set(i, en.retGlobal[cf])
 						}
 					}
 				case *ssa.FieldAddr:
